@@ -51,7 +51,7 @@ def run(ctx, run):
         if not outs:
             raise AnalysisBroken("%s: no output parameter found (signature changed?)" % name)
         viol, n_false, n_out, sp = nowrite.check(ctx, f, outs)
-        n_false_total += n_false
+        n_false_total += 1 if n_false > 0 else 0
         key = "RF-NOWRITE:%s" % name
         for u in sp.unknown:
             raise AnalysisBroken("%s: %s" % (name, u[1]))
@@ -72,7 +72,8 @@ def run(ctx, run):
                       "after a write through %s (%d write site(s) seen, all on TRUE-only paths)"
                       % (n_out, n_false, "/".join(sorted(outs)), len(sp.writes)),
                       "%s:%d" % (f.file, f.line), nontrivial=n_false > 0)
-    run.floor("RF-NOWRITE FALSE exits over the ten codec functions", n_false_total, 14)
+    # (counted per function: merging two guards into one condition removes an exit, not a rejecting function)
+    run.floor("RF-NOWRITE codec functions with a FALSE exit", n_false_total, 7)
 
     # ---- RF-NEG ----------------------------------------------------------------
     n_src = 0
@@ -109,6 +110,108 @@ def run(ctx, run):
     _dc3_exact(ctx, run)
     _sign_is_one_bit(ctx, run)
     neg.helper_contract(ctx, run)
+    _codecs_stateless(ctx, run)
+    _protected_bytes_only_through_unham(ctx, run)
+
+
+def _codecs_stateless(ctx, run):
+    """The ten codec functions are functions of their arguments: no object with static storage duration is written,
+    and none that is not const is read.  (A decoder that remembers its previous input can accept what it refused a moment
+    ago, or return a stale value for it: 'invalid input is rejected and leaves the output untouched' then depends on the
+    call history.)"""
+    P = ctx.prog
+    n = 0
+    for name, unit in CODECS:
+        f = P.need(name, unit)
+        n += 1
+        bad = None
+        for i, e in enumerate(f.exprs):
+            if e["k"] == "ref" and e.get("dk") in ("slocal", "global"):
+                t = e.get("t") or ""
+                if "(" in t:                      # a function designator
+                    continue
+                elem = t.split("[")[0].strip()
+                if elem.startswith("const ") or elem.endswith(" const") or elem.endswith("*const"):
+                    continue                      # a constant table
+                bad = (i, e)
+                break
+        key = "RF-PURE:%s:stateless" % name
+        if bad is None:
+            run.holds("RF-PURE", key, "%s reads and writes no modifiable object with static storage duration" % name,
+                      "%s:%d" % (f.file, f.line))
+        else:
+            run.violation("RF-PURE", key, "%s uses the modifiable static object `%s`: its result depends on earlier calls, so an "
+                          "input refused once can be accepted (or decoded to a stale value) when it is presented again"
+                          % (name, bad[1].get("name")), "%s:%d" % (f.file, bad[1].get("line", f.line)),
+                          witness={"function": name, "object": bad[1].get("name")})
+    run.floor("codec functions examined for static state", n, 10)
+
+
+def _protected_bytes_only_through_unham(ctx, run):
+    """8/30 format 2 is Hamming 8/4 protected throughout: every read of the packet goes through vbi_unham8 /
+    vbi_unham16p (whose result RF-NEG follows).  A raw byte that reaches an output by-passes the error correction: a
+    correctable single-bit error is accepted and the uncorrected bit is announced."""
+    P = ctx.prog
+    UNHAM = ("vbi_unham8", "vbi_unham16p", "vbi_unham24p")
+    n = 0
+    for name in HAMMING_DECODERS:
+        f = P.need(name, UNIT_830)
+        buf = f.params[-1]["name"]
+        parent = {}
+        for i, e in enumerate(f.exprs):
+            for c in e.get("c") or []:
+                if c is not None and c >= 0:
+                    parent.setdefault(c, i)
+            if e["k"] == "decl":
+                for v in e.get("vars", []):
+                    if v.get("init") is not None and v["init"] >= 0:
+                        parent.setdefault(v["init"], i)
+        reachable = set()
+        for bid, i in flow.all_events(f):
+            for x in ex.walk(f, i):
+                reachable.add(x)
+        for b in f.blocks.values():
+            if b.term and "cond" in b.term:
+                for x in ex.walk(f, b.term["cond"]):
+                    reachable.add(x)
+        for i, e in enumerate(f.exprs):
+            if not (e["k"] == "ref" and e.get("dk") == "param" and e.get("name") == buf) or i not in reachable:
+                continue
+            n += 1
+            j, ok, k = i, False, 0
+            derived = True        # so far only pointer derivation / a plain copy, no arithmetic on a packet byte
+            while j in parent and k < 40:
+                prev = j
+                j = parent[j]
+                k += 1
+                pe = f.exprs[j]
+                if pe["k"] in ("bin", "un") and not (pe.get("t") or "").rstrip().endswith("*") and not (pe["k"] == "un" and pe["op"] == "*"):
+                    if not (pe["k"] == "bin" and pe["op"] in ("==", "!=") and any(ex.is_null(f, c) for c in pe["c"])):
+                        derived = False
+                if pe["k"] == "idx" and pe["c"][0] != prev:
+                    derived = False   # the packet byte is used as an index
+                if pe["k"] == "call":
+                    ok = pe.get("callee") in UNHAM or pe.get("callee") in ("__assert_fail",)
+                    break
+                if pe["k"] == "bin" and pe["op"] in ("==", "!=") and any(ex.is_null(f, c) for c in pe["c"]):
+                    ok = True
+                    break
+            key = "RF-NEG:%s:protected-read:%d" % (name, e.get("line", 0))
+            if ok:
+                run.holds("RF-NEG", key, "the packet is read through a Hamming decoder (or compared with NULL)", "%s:%d" % (f.file, e.get("line", f.line)))
+            elif derived:
+                run.undecided("RF-NEG", key, "%s copies a packet byte or derives a pointer into the packet without decoding it on the "
+                              "spot; where the copy goes is not followed" % name, "%s:%d" % (f.file, e.get("line", f.line)))
+            else:
+                top = i
+                while top in parent and f.exprs[parent[top]]["k"] not in ("asg", "decl", "ret"):
+                    top = parent[top]
+                run.violation("RF-NEG", key, "%s reads the Hamming protected packet outside vbi_unham8 / vbi_unham16p (`%s`): the raw "
+                              "bits by-pass the error correction, a correctable single-bit error changes the decoded value"
+                              % (name, ex.pretty(f, top)[:70]), "%s:%d" % (f.file, e.get("line", f.line)),
+                              witness={"function": name, "expression": ex.pretty(f, top)})
+    run.floor("reads of the Hamming protected packet in the 8/30-2 decoders", n, 6)
+
 
 def _sign_is_one_bit(ctx, run):
     """8/30 format 1 local time offset: magnitude and sign come from one byte.  The branch that negates the
